@@ -73,6 +73,9 @@ def _dlnrho(gas, T, p, tpc, ppc, g):
     return rr, abs(rr - r2)
 
 
+STD_CONDITIONS = (None, None, (59.0, 14.65), (32.0, 14.696), (68.0, 15.025))
+
+
 def _gas_sweep(task):
     env.import_bluebonnet()
     from bluebonnet.fluids import gas  # noqa: PLC0415
@@ -85,7 +88,15 @@ def _gas_sweep(task):
         p = prn * ppc
         d = {"T": T, "p": p, "tpc": tpc, "ppc": ppc, "g": g, "pr_nominal": prn}
         d["rho"], e1 = _safe(gas.density_DAK, T, p, tpc, ppc, g)
-        d["bg"], e2 = _safe(gas.b_factor_DAK, T, p, tpc, ppc)
+        # base conditions are the caller's: the default (60 F, 14.70 psia) or another contract base, given by keyword or by position
+        std = STD_CONDITIONS[int(round(trn * 100 + tpcR)) % len(STD_CONDITIONS)]
+        if std is None:
+            d["bg"], e2 = _safe(gas.b_factor_DAK, T, p, tpc, ppc)
+        elif int(round(prn * 10)) % 2:
+            d["bg"], e2 = _safe(gas.b_factor_DAK, T, p, tpc, ppc, std[0], std[1])
+        else:
+            d["bg"], e2 = _safe(lambda *a: gas.b_factor_DAK(*a, temperature_standard=std[0], pressure_standard=std[1]), T, p, tpc, ppc)
+        d["std"] = list(std) if std else None
         d["z"], e3 = _safe(gas.z_factor_DAK, T, p, tpc, ppc)
         d["mu"], e4 = _safe(gas.viscosity_Sutton, T, p, tpc, ppc, g)
         errs = [e for e in (e1, e2, e3, e4) if e]
@@ -116,12 +127,15 @@ def log_gas_sweep(log: sweep.SweepLog, m: gaseos.Model, meta: dict, pts: list[di
     for d in pts:
         g, T, p, z = d["g"], d["T"], d["p"], d["z"]
         expect = float(m.gas_std_mass(g))
+        if d.get("std"):   # p_sc M / (R T_sc) at the caller's base conditions
+            expect = float(m.gas_std_mass(g) * Fraction(d["std"][1]) / c["pstd"] * (c["tstd"] + c["rankine"]) / (Fraction(d["std"][0]) + c["rankine"]))
         ratio = d["rho"] * d["bg"] / expect
         ok = z == z and z > 0
         ref = float(Fraction(p) * c["mair"] * Fraction(g) / (Fraction(z) * c["rgas"] * (Fraction(T) + c["rankine"]))) \
             if ok else math.nan
         agree = {"rhobg_exp": quant.e15(ratio, 1.0, 1.0), "dens_formula": _rel15(d["rho"], ref)}
         raw = {k: d[k] for k in ("T", "p", "tpc", "ppc", "g", "rho", "bg", "z", "mu")}
+        raw["base_conditions"] = d.get("std") or "default"
         raw["rhobg"] = d["rho"] * d["bg"]
         raw["rhobg_expected"] = expect
         if "cg" in d:
